@@ -473,3 +473,132 @@ def minimise_scn(scn, fails, budget=120):
             if cand and fails(mk(cand)):
                 cur = cand; changed = True
     return mk(cur)
+
+# ------------------------------------------------------------------------------------------------
+def L(*lines):
+    return [('L', (l.encode('latin1') if isinstance(l, str) else l)) for l in lines]
+
+def corpus():
+    """hand-minimised histories of past failures (D1, D3-D6, D16, D22, D7) and of ordinary sessions; run first by every IAuth check"""
+    two_login = [('a.svc', 'login'), ('b.svc', 'login')]
+    c = []
+    c.append(Scn(True, True, two_login, [dict(name='r500', **{'class': 'dflt'})], 0, L("5 C 1.2.3.4 1234 10.0.0.1 6667", "5 P :+! acct pass", "-1 X a.svc 5_1 :OK acct:1", "-1 X b.svc 5_1 :OK acct:1", "5 H"), "D4 two vouchers under +!"))
+    c.append(Scn(True, False, [('a.svc', 'login')], [], 0, L("5 C 1.2.3.4 1234 10.0.0.1 6667", "5 P :+! acct pass", "-1 X a.svc 5_1 :OK ", "5 H", "5 D"), "D5 empty account under +!"))
+    c.append(Scn(True, False, [('d.svc', 'dronecheck')], [], 0, L("5 C 1.2.3.4 1234 10.0.0.1 6667", "5 P :+! a b", "5 H", "-1 X d.svc 5_1 :OK", "5 P :-! a b"), "D6 no re-evaluation after password"))
+    c.append(Scn(True, False, [('a.svc', 'login'), ('d.svc', 'dronecheck')], [], 3600, L("5 C 1.2.3.4 1234 10.0.0.1 6667", "5 P :+x a b", "5 ! timeout", "-1 X a.svc 5_1 :OK a", "5 H", "-1 X d.svc 5_1 :OK"), "D3 reply after timeout"))
+    c.append(Scn(True, False, [('d.svc', 'dronecheck')], [], 3600, L("5 C 1.2.3.4 1234 10.0.0.1 6667", "5 ! timeout", "5 H", "-1 X d.svc 5_1 :OK"), "D3 query first sent after expiry"))
+    c.append(Scn(True, True, [], [dict(name='r1', trust=True)], 0, L("5 C 1.2.3.4 1 10.0.0.1 6667", "5 u ~foo", "5 H", "6 C 1.2.3.4 1 10.0.0.1 6667", "6 u ~foo", "6 U ~ :x", "6 H", "7 C 1.2.3.4 1 10.0.0.1 6667", "7 u ~foo", "7 U bar :x", "7 H"), "D16 empty trusted user name"))
+    c.append(Scn(True, False, [('a.svc', 'login')], [], 0, L("0 C 1.2.3.4 1 10.0.0.1 6667", "0 P :+x a b", "-1 X a.svc _1 :OK acct", "-1 X a.svc 0_ :OK acct", "-1 X a.svc _ :OK acct", "0 H", "-1 X a.svc 0_1 :OK acct"), "D22 tag without digits"))
+    c.append(Scn(True, False, [('d.svc', 'dronecheck')], [], 0, L("2147483647 C 1.2.3.4 1 10.0.0.1 6667", "-2 C 1.2.3.4 1 10.0.0.1 6667", "5 C 1.2.3.4 1 10.0.0.1 6667", "2147483647 H", "-2 H", "5 H", "-1 X d.svc 7fffffff_1 :OK", "-1 X d.svc fffffffe_2 :OK", "-1 X d.svc 5_3 :NO go away"), "D7 extreme ids"))
+    c.append(Scn(True, False, [('a.svc', 'login')], [], 0, L("5 C 1.2.3.4 1 10.0.0.1 6667", "5", "   ", "5 N", "5 P", "5 n", "5 u", "5 U", "5 U a", "5 H"), "D1 missing parameters"))
+    # an ordinary session in the style of tests/code-coverage.pl
+    c.append(Scn(True, True, [('drone.svc', 'dronecheck'), ('login.svc', 'login')], [dict(name='r100', account='op*', **{'class': 'opers'}), dict(name='r500')], 0,
+                 L("1 C 192.168.1.9 40001 10.0.0.1 6667", "1 N client.example.org", "1 u ident", "1 n Nick", "1 U user :Real Name", "1 P :+x oper secret", "-1 X login.svc 1_1 :OK oper:1234",
+                   "-1 X drone.svc 1_1 :OK", "2 C 2001:db8::5 40002 10.0.0.1 6667", "2 d", "2 u", "2 U ~u2 :r", "2 n N2", "-1 X drone.svc 2_2 :NO drones are not welcome", "2 D",
+                   "3 C 10.9.8.7 3 10.0.0.1 6667", "3 H", "-1 x drone.svc 3_3 :unlinked", "3 T"), "ordinary sessions"))
+    # id reuse with a stale reply for a service the newcomer awaits
+    c.append(Scn(True, False, [('a.svc', 'login')], [], 0, L("5 C 1.2.3.4 1 10.0.0.1 6667", "5 P :+x a b", "5 D", "5 C 1.2.3.5 2 10.0.0.1 6667", "5 P :+x c d", "-1 X a.svc 5_1 :OK stale", "-1 X a.svc 5_1 :NO stale", "5 H", "-1 X a.svc 5_2 :OK fresh"), "stale serial after id reuse"))
+    # challenge / response with two services
+    c.append(Scn(True, False, two_login, [], 0, L("3 C 1.2.3.4 1 10.0.0.1 6667", "3 P :+x a b", "-1 X a.svc 3_1 :MORE first?", "-1 X b.svc 3_1 :MORE second?", "3 P :answer", "-1 X a.svc 3_1 :OK a", "-1 X b.svc 3_1 :AGAIN no", "3 U u :r", "3 H"), "two MORE challenges"))
+    return c
+
+def fmt_steps(scn, steps):
+    out = []
+    for i, it in enumerate(scn.items):
+        out.append("> " + (it[1].decode('latin1') if it[0] == 'L' else "RELOAD"))
+        if steps is not None and i < len(steps):
+            for l in steps[i][0]:
+                out.append("    < " + l)
+            out.append("    (in use: %s)" % steps[i][1])
+    return "\n".join(out)
+
+def replay_text(scn, d, m):
+    return ("scenario (%s):\n%s\n\nimplementation, step by step (exit status %s):\n%s\n\nmodel, step by step:\n%s\n\nimplementation stderr (tail):\n%s\n" %
+            (scn.note, scn.describe(), d.rc if d else "?", fmt_steps(scn, d.steps if d else None), fmt_steps(scn, m), (d.stderr[-1500:] if d else "")))
+
+def analyse(chk, drv, impl, scns, ms, ds, project, judge=None, monitor=None, what="", nontrivial=None, max_viol=4):
+    """project(lines, in_use) -> comparable; judge(scn, i, dproj, mproj) -> (text, found) for a projection mismatch at step i;
+       monitor(scn, d) -> None or text (an oracle independent of the model)"""
+    distinct = set()
+    for scn, m, d in zip(scns, ms, ds):
+        if len(chk.violations) >= max_viol:
+            break
+        chk.cov["evaluations"] += 1
+        viol = None
+        if monitor is not None:
+            w = monitor(scn, d)
+            if w:
+                viol = (w, True)
+        if viol is None:
+            n = max(len(m), len(d.steps))
+            for i in range(n):
+                dp = project(*d.steps[i]) if i < len(d.steps) else "<no answer: the daemon stopped responding (exit status %s)>" % d.rc
+                mp = project(*m[i]) if i < len(m) else None
+                if dp != mp:
+                    # the first divergence decides; later steps of a diverged history are not comparable
+                    if judge:
+                        viol = judge(scn, i, dp, mp)
+                    else:
+                        viol = ("step %d (%s): daemon %r, model %r" % (i, scn.items[i][1].decode('latin1') if i < len(scn.items) and scn.items[i][0] == 'L' else 'reload', dp, mp), True)
+                    break
+        if viol is None:
+            chk.cov["traces_validated_against_impl"] += 1
+            key = nontrivial(scn, d) if nontrivial else tuple(tuple(s[0]) for s in d.steps if s[0])
+            if key:
+                distinct.add(hash(key))
+            continue
+        text, found = viol
+        # minimise: keep the same kind of failure
+        def fails(s2):
+            m2 = run_model(drv, [s2])[0]; d2 = run_daemon(impl, s2)
+            if monitor is not None and monitor(s2, d2):
+                return True
+            for i in range(max(len(m2), len(d2.steps))):
+                dp = project(*d2.steps[i]) if i < len(d2.steps) else "<none>"
+                mp = project(*m2[i]) if i < len(m2) else None
+                if dp != mp:
+                    return (judge(s2, i, dp, mp) is not None) if judge else True
+            return False
+        try:
+            small = minimise_scn(scn, fails, budget=80)
+            m2 = run_model(drv, [small])[0]; d2 = run_daemon(impl, small)
+            if not fails(small):
+                small, m2, d2 = scn, m, d
+        except Exception as e:
+            small, m2, d2 = scn, m, d
+        chk.violation("%s%s" % (what, text), replay_text(small, d2, m2), "iauth:" + text[:80], found_input=found)
+    chk.cov["distinct_nontrivial"] = chk.cov.get("distinct_nontrivial", 0) + len(distinct)
+    return distinct
+
+
+def step_label(scn, i):
+    if i < len(scn.items):
+        return scn.items[i][1].decode('latin1') if scn.items[i][0] == 'L' else 'reload'
+    return '?'
+
+def kinds(lines, which):
+    """sorted (kind, id) of client-addressed lines whose kind letter is in `which`"""
+    out = []
+    for l in lines:
+        p = parse_line(l)
+        if p[0] == 'C' and p[1] in which:
+            out.append((p[1], p[2]))
+    return sorted(out)
+
+def reached_verdict(scn, d):
+    v = tuple(tuple(x for x in s[0]) for s in d.steps if any(l[:1] in 'DRk' for l in s[0]))
+    return v if v else None
+
+def standard_run(chk, profile, nq, nt, extra=()):
+    env = setup(chk, extra)
+    if env is None:
+        return None
+    drv, impl = env
+    n = nq if chk.tier == "quick" else nt
+    scns = corpus() + [gen_scn(chk.rng, profile, chk.hist) for _ in range(n)]
+    ms = run_model(drv, scns)
+    ds = run_daemons(impl, scns)
+    chk.cov["samples"] = [scns[0].describe().split("\n"), scns[len(corpus()) + 1].describe().split("\n")[:25]]
+    chk.hist("scenarios:corpus", len(corpus())); chk.hist("scenarios:generated", n)
+    chk.hist("steps", sum(len(s.items) for s in scns))
+    return drv, impl, scns, ms, ds
